@@ -4,7 +4,7 @@ from __future__ import annotations
 import ast
 
 from sa import match as M, norm, pc as PC, prog, rulekit as K
-from sa.consteval import Folder
+from sa.consteval import Folder, NotConst, RegexConst
 from sa.effects import Effects
 from sa.loader import AnalysisError
 from rules import C01, C03
@@ -26,7 +26,7 @@ def run(chk):
         "client error (client); (retention) every store of input-derived bytes into _tail/_lines/_chunk_tail/_trailer_lines is bounded by a "
         "limit check before the next exit, at re-entry, or by an allow-listed pause; (limits) = C03.rp/rp2/rp3."
     )
-    chk.not_decided = "absence of hangs and of super-linear work; exceptions of constructs outside the external-raiser table (e.g. IndexError on attacker-positioned indexes)."
+    chk.not_decided = "absence of hangs and of super-linear work in general (decided only: no constant pattern has a nested unbounded repetition, C10.regex.linear); exceptions of constructs outside the external-raiser table (e.g. IndexError on attacker-positioned indexes)."
     chk.explanation += " Also decided: the obs-fold loop compares a running total with max_field_size. After the defect hunt: framing errors are published on the body stream in their wrapped form; limit violations inside a chunked body are re-raised by the head parser."
     chk.explanation += " Second hunt: yarl's IndexError (empty host after a bracketed userinfo) is in the raiser table and must be converted like ValueError."
     chk.assumptions.append("external-raiser table of DESIGN section 2 is complete for what these parsers call; everything else is assumed not to raise")
@@ -129,6 +129,61 @@ def run(chk):
         chk.violation("C10.limits.config", hp, "max_trailers = self.max_headers - len(self._lines)", "trailer budget", "the number of trailer fields is not bounded by the header budget")
     hunt3_rules(chk, repo, hp)
     hunt4_rules(chk, repo)
+    regex_cost_rule(chk, repo, folder)
+
+
+_RE_FUNCS = ("re.compile", "re.match", "re.fullmatch", "re.search", "re.sub", "re.subn", "re.split", "re.findall", "re.finditer")
+# modules whose patterns are applied to bytes of a peer: the two HTTP parsers and what they call
+_RE_MODULES = ("aiohttp/http_parser.py", "aiohttp/helpers.py", "aiohttp/_cookie_helpers.py", "aiohttp/multipart.py", "aiohttp/http_websocket.py", "aiohttp/_websocket/helpers.py",
+               "aiohttp/web_request.py", "aiohttp/cookiejar.py", "aiohttp/client_reqrep.py", "aiohttp/web_urldispatcher.py", "aiohttp/web_fileresponse.py", "aiohttp/http_writer.py", "aiohttp/payload.py")
+
+
+def regex_cost_rule(chk, repo, folder, rule="C10.regex.linear"):
+    """Rule written after seeding round 6 (seed C10-6): no pattern applied to peer input has a nested unbounded repetition.
+    Python's matcher backtracks: `(?:[plain]+|%XX)+` tries every way to split a run of n plain characters between the inner and the outer
+    loop before it reports a mismatch - 2**n steps for a 40-byte Host value followed by one character a host cannot contain.  The hazard is a
+    property of the pattern's syntax tree (sa.regexlang.backtracking_hazards); every pattern that can be folded to a constant is examined."""
+    from sa import regexlang
+    if not regexlang._hazard_selfcheck():
+        chk.analysis_error(f"{rule}: the hazard test does not separate its own positive and negative examples")
+        return
+    n = unfolded = 0
+    for rel in _RE_MODULES:
+        if not repo.has_module(rel):
+            continue
+        mod = repo.module(rel)
+        for c in ast.walk(mod.tree):
+            if not (isinstance(c, ast.Call) and norm.raw(c.func) in _RE_FUNCS and c.args):
+                continue
+            try:
+                pat = folder.eval(mod, c.args[0])
+                flags = 0
+                if norm.raw(c.func) == "re.compile":
+                    fl = c.args[1] if len(c.args) > 1 else next((k.value for k in c.keywords if k.arg == "flags"), None)
+                    flags = int(folder.eval(mod, fl)) if fl is not None else 0
+            except (NotConst, TypeError, ValueError):
+                unfolded += 1
+                continue
+            if isinstance(pat, RegexConst):
+                pat, flags = pat.pattern, pat.flags
+            if not isinstance(pat, (str, bytes)):
+                unfolded += 1
+                continue
+            n += 1
+            try:
+                hz = regexlang.backtracking_hazards(pat, flags)
+            except Exception as e:  # a pattern the stdlib parser refuses is someone else's finding
+                unfolded += 1
+                continue
+            if hz:
+                chk.violation(rule, c, K.short(c, 100), "an inner repetition that cannot be re-split by the outer one: (?:[plain]|%XX)+ instead of (?:[plain]+|%XX)+",
+                              f"the pattern {pat!r:.120} repeats a group that can itself match a run of characters in one or in several rounds: a mismatch after n such characters costs 2**n steps - one short request line or header value (40 ordinary characters and a character the pattern refuses) keeps the event loop busy for hours")
+            else:
+                chk.ok(rule, c, f"{pat!r:.60}: no nested unbounded repetition")
+    chk.expect_count(rule, n, 25, "patterns folded to constants in the modules that parse peer input")
+    chk.note = getattr(chk, "note", "")
+    if unfolded:
+        chk.ok(rule, repo.module(_RE_MODULES[0]).tree, f"{unfolded} pattern expression(s) are built at run time (re.escape of a boundary, a template) and are not examined")
 
 
 def hunt3_rules(chk, repo, hp):
